@@ -196,13 +196,32 @@ func genC15(repo string) (string, error) {
 		return "", err
 	}
 	gopt := goast.SkelOpt{
-		Calls: set("validateRequest", "GetRaftCluster", "LoadGCSafePoint", "SaveGCSafePoint", "RemoveServiceGCSafePoint",
+		Calls: set("validateRequest", "GetRaftCluster", "LoadGCSafePoint", "SaveGCSafePoint", "saveGCSafePointAsLeader", "RemoveServiceGCSafePoint",
 			"HandleTSORequest", "LoadMinServiceGCSafePoint", "SaveServiceGCSafePoint"),
 		Assigns: set("ExpiredAt"), Conds: true}
 	for _, fn := range []string{"GetGCSafePoint", "UpdateGCSafePoint", "UpdateServiceGCSafePoint"} {
 		if err := o.skeletonCanon(g, "Server", fn, "skel_"+fn, gopt); err != nil {
 			return "", err
 		}
+	}
+	// the write of the cluster safe point ("fix: save the cluster GC safe point only as leader and only over the value it was
+	// compared with"): its transaction and what the transaction compares
+	srv, err := goast.Load(repo, "server/server.go")
+	if err != nil {
+		return "", err
+	}
+	wopt := goast.SkelOpt{Calls: set("LeaderTxn", "Compare", "OpPut", "Then", "Commit", "GetLeadership"), Conds: true}
+	if err := o.skeletonCanon(srv, "Server", "saveGCSafePointAsLeader", "skel_saveGCSafePointAsLeader", wopt); err != nil {
+		return "", err
+	}
+	sfd, err := srv.Func("Server", "saveGCSafePointAsLeader")
+	if err != nil {
+		return "", err
+	}
+	{
+		var t out
+		t.strList("gc_save_cmps", srv.Compares(sfd), "clientv3.Compare calls of saveGCSafePointAsLeader (the leader key comparison is added by Leadership.LeaderTxn)")
+		o.sb.WriteString(canonLocals(sfd, t.sb.String()))
 	}
 	// the REST handler that removes a service safe point (no server lock): which storage call it makes
 	api, err := goast.Load(repo, "server/api/service_gc_safepoint.go")
